@@ -180,6 +180,16 @@ func runsFor(prop, tier string) []run {
 			}(), pick(26, 30), minutes(pickf(1.2, 8))},
 			{"rebuild-killed-at-every-gate-then-retried", mk(withData, []string{"RB", "Step", "Kill", "MonFail", "W0"}, 3, 1, 0, 4), pick(30, 60), minutes(pickf(1.0, 10))},
 		}
+	case "C16ctl":
+		mk := func(rf int, init []string) eb.Cfg {
+			return eb.Cfg{RF: rf, N: rf, Alphabet: []string{"Resize", "W0", "R", "MonFail", "MonWake", "ERR", "Remove", "Add", "Sync", "Verify"}, Oracles: []string{"c16", "c04", "c18"}, Drain: false,
+				MaxWrites: 2, MaxReads: 1, MaxAdds: 2, MaxFaults: 2, InitOps: init}
+		}
+		return []run{
+			{"rf3-from-3rw", mk(3, rw3), pick(3, 5), minutes(pickf(0.5, 4))},
+			{"rf3-from-2rw+wo", mk(3, rw2wo), pick(3, 5), minutes(pickf(0.5, 4))},
+			{"rf2-from-1rw+wo", mk(2, rw1wo), pick(4, 5), minutes(pickf(0.4, 3))},
+		}
 	case "C11rest":
 		mk := func(init []string) eb.Cfg {
 			return eb.Cfg{RF: 2, N: 2, Alphabet: []string{"W0", "Snap", "DelSnap", "MonFail", "MonWake", "ERR", "Remove", "RB", "Step"}, Oracles: []string{"c11", "c18"}, Drain: false, Real: true,
@@ -293,6 +303,9 @@ func check(prop string) int {
 	realProp := prop
 	if prop == "C11rest" {
 		realProp, evName = "C11", "C11-rest.part"
+	}
+	if prop == "C16ctl" {
+		realProp, evName = "C16", "C16-ctl.part"
 	}
 	tier := kernel.Tier()
 	runs := runsFor(prop, tier)
